@@ -39,12 +39,13 @@ BOUNDS = {'quick': {'start window': 'any microsecond within +-3 s of a configure
 OUTSIDE = ["configured endpoints are concrete (they are dictionary keys inside Cron)", "real DST / time-zone behaviour of "
            "datetime.now()", "runs of several days", "wake-up latency in the quick tier (thorough: one symbolic latency <= 1 ms applied to every wake-up, two configurations)",
            "backward clock jumps", "more than 2 blocks per scheduler"]
-STUBS = ["Cron.dtnow -> symbolic wall clock (symx/wallclock.py): base date + symbolic microseconds, reads truncated to 1 us",
+STUBS = ["Cron.dtnow -> symbolic wall clock (symx/wallclock.py): base date + symbolic microseconds, reads truncated to 1 us "
+         "(scen_utc_and_local: the real Cron.dtnow() runs on a stub of datetime.now(tz); local time = UTC + 2 h)",
          "cron.time.sleep advances the virtual clock", "virtual-time loop"]
 ASSUMPTIONS = ["tolerance around a boundary: 5 ms (statement: 'a few milliseconds')"]
 EXPECT_LABELS = {'all': ['output-at-start', 'output-later', 'no-error', 'after-reconfig', 'jump-survived', 'after-jump']}
 EXPECT_NOTES = {'all': ['start-just-before-boundary', 'start-just-after-boundary', 'crossed-boundary', 'crossed-midnight',
-                        'observation-near-boundary', 'jump-over-midnight']}
+                        'observation-near-boundary', 'jump-over-midnight', 'utc-and-local-blocks']}
 FLOORS = {'quick': {'paths': 100, 'checks': 300}, 'thorough': {'paths': 500, 'checks': 1500}}
 
 H = 3_600_000_000
@@ -226,6 +227,75 @@ def scen_timedate(env, cfg, base, utc, second_cfg=None, nobs=1, bidx=None, laten
         vloop.run(main())
 
 
+UTC_AHEAD_US = -2 * H          # local time = UTC + 2 h
+
+
+class RunTZ(Run):
+    """like Run, but the REAL Cron.dtnow() runs: the module's `dt.datetime.now(tz)` is the symbolic wall clock - local
+    time without an argument, UTC (two hours behind) with a time zone argument - so a mix-up of the two schedulers,
+    or a cron ignoring its utc flag, shows in the outputs"""
+
+    def __enter__(self):
+        self.saved = (cron.dt, cron.time)
+        clock = self.clock
+        real = cron.dt
+
+        class FakeNow(SymDateTime):
+            def replace(self_, tzinfo=None):
+                return self_
+
+        class FakeDateTime:
+            @staticmethod
+            def now(tz=None):
+                us_now = clock.now_us()
+                return FakeNow(clock.base, us_now + (UTC_AHEAD_US if tz is not None else 0))
+        cron.dt = types.SimpleNamespace(datetime=FakeDateTime, time=real.time, date=real.date, timedelta=real.timedelta,
+                                        timezone=real.timezone)
+
+        def vsleep(x):
+            loop = asyncio.get_running_loop()
+            loop.advance_to(loop.time() + x)
+        cron.time = types.SimpleNamespace(sleep=vsleep)
+        return self
+
+    def __exit__(self, *exc):
+        cron.dt, cron.time = self.saved
+        return False
+
+
+def scen_utc_and_local(env, bidx):
+    """one block in UTC mode and one in local mode with the SAME configured times, local time two hours ahead of UTC:
+    each follows its own clock (start near a boundary of either, one later observation)"""
+    kind, kw, bounds, pred = CONFIGS['plain']           # 10:00-10:30
+    both = sorted(set(bounds + [b - UTC_AHEAD_US for b in bounds]))      # local instants at which either block switches
+    w0, b0 = window(env, 'w0', both, bidx=bidx)
+    with RunTZ(env, BASES['mid'], w0, False) as run:
+        td_l = edzed.TimeDate('td_local', utc=False, **kw)
+        td_u = edzed.TimeDate('td_utc', utc=True, **kw)
+        gap = env.real('gap0', 0, 8)
+
+        def observe2(label):
+            now_off = run.clock.now_us()
+            date, tod, dcount = run.split(now_off)
+            for blk, shift in ((td_l, 0), (td_u, UTC_AHEAD_US)):
+                t = tod + shift
+                out = blk.output
+                ok = Or_(run.near(t, bounds), Iff_(bool(out), pred(date, t))) if isinstance(out, bool) else False
+                env.check(label, ok, info=lambda: (blk.name, out, tod))
+            env.check('no-error', run.circ.error is None, info=lambda: run.circ.error)
+
+        async def main():
+            asyncio.create_task(run.circ.run_forever())
+            await run.circ.wait_init()
+            observe2('output-at-start')
+            env.check('two-schedulers', {'_cron_local', '_cron_utc'} <= {b.name for b in run.circ.getblocks()})
+            await asyncio.sleep(gap)
+            observe2('output-later')
+            env.note('utc-and-local-blocks')
+            await run.circ.shutdown()
+        vloop.run(main())
+
+
 def scen_reconfig(env, cfg, newcfg, base, bidx=None, span_s=2, gmax=3):
     """a 'reconfig' event at a symbolic instant, arbitrarily close to a boundary of the old or new configuration"""
     kind, kw, bounds, pred = config(cfg)
@@ -390,6 +460,9 @@ def shards(tier):
         out.append({'name': f'reconfig {a}->{b} base={base} around midnight', 'scenario': 'scen_reconfig',
                     'params': {'cfg': a, 'newcfg': b, 'base': base, 'bidx': 0,
                                'span_s': 1 if tier == 'quick' else 2, 'gmax': 2 if tier == 'quick' else 3}, 'cost': 40})
+    for bidx in ((1, 2) if tier == 'quick' else range(4)):
+        out.append({'name': f'UTC and local block, real Cron.dtnow(), boundary={bidx}', 'scenario': 'scen_utc_and_local',
+                    'params': {'bidx': bidx}, 'cost': 20})
     for bidx in range(1 if tier == 'quick' else 2):
         out.append({'name': f'two blocks plain+two-ranges boundary={bidx}', 'scenario': 'scen_timedate',
                     'params': {'cfg': 'plain', 'base': 'mid', 'utc': False, 'second_cfg': 'two-ranges', 'nobs': 1, 'bidx': bidx},
